@@ -732,6 +732,28 @@ def _evaluate_rational(ctx, model):
     n = model.nodes.get("Rational")
     res, chain, mem = resolve_handler(model, ev, n)
     ok = False
+    # the judge: the handler (a def, an alias, a function made in the class
+    # body) interpreted on a node with numerator / denominator tokens
+    try:
+        from .. import evaljudge
+        cases = evaljudge.cases_for("binary", "/", ("numerator", "denominator"))
+        for c in cases:      # the legacy spellings of the two fields
+            c.fields.update(Numerator=c.fields["numerator"],
+                            Denominator=c.fields["denominator"],
+                            num=c.fields["numerator"],
+                            den=c.fields["denominator"])
+        jwit, n_c, _w = evaljudge.judge(
+            model, ev, "Rational", n.mapper_method, "binary", "/",
+            ("numerator", "denominator"), cases=cases)
+        ctx.ob("E0/EvaluationMapper/Rational/denotation", not jwit,
+               where(mem) if mem is not None and mem.kind == "func" else ev.loc(),
+               f"interpreted on {n_c} operand scenarios: numerator / "
+               "denominator" if not jwit else
+               "EvaluationMapper's handler for Rational: " + "; ".join(jwit[:2]))
+        if not jwit:
+            return
+    except AnalysisError as e:
+        ctx.extra["judge_unavailable:EvaluationMapper.map_rational"] = str(e)
     if mem is not None and mem.kind == "func":
         for ps in handler_summaries(model, n, mem.node):
             rv = ps.retval
